@@ -93,7 +93,7 @@ pub fn main(ctx: &Ctx, repo_bin_dir: Option<String>) -> i32 {
     ctx.assume("re-parsing uses the parser under test (its correctness is C11's business); member order is compared per kind, the only order the public IDL fields expose");
     ctx.assume("escape sequences are stripped from both renderings before comparing, because comments may legally contain ESC bytes");
     colored::control::set_override(true);
-    let ndefs = ctx.tier.pick(300usize, 20_000usize);
+    let ndefs = ctx.tier.pick(300usize, 60_000usize);
     let ws = widths();
     let nw = workers();
     par(nw, |w| {
